@@ -315,6 +315,10 @@ def judge_history(ctx, h, res, pm):
             break                                   # premise "completes without error" fails; later state is not judged
         plan = h["plan"][s - 1]
         dumps[s] = ent_map(runs[s]["dump"])
+        if plan.get("mode") == "define":
+            # a simulation that only (re)defines entities: no calculation; its dump is the state before the next step
+            out["redefinitions"] = out.get("redefinitions", 0) + 1
+            continue
         before, after = dumps[s - 1], dumps[s]
         neg = []
         try:
@@ -1044,7 +1048,7 @@ def run(ctx):
             forced = [gen.KINDS[i]]                          # every reactant kind alone at least once
         elif i == len(gen.KINDS):
             forced = list(gen.KINDS)                         # and all together
-        hs.append(gen.history(ctx.rng, forced))
+        hs.append(gen.history(ctx.rng, forced) if (i < 8 or ctx.rng.random() >= 0.12) else gen.phstat_history(ctx.rng))
     hs += gen.known_histories()                              # deterministic reproductions of the listed known findings
     cdir = vlib.ROOT / "corpus" / "C02"                      # fixed cases (past misses), always run
     for f in sorted(cdir.glob("*.json")) if cdir.exists() else []:
@@ -1097,6 +1101,7 @@ def run(ctx):
         stats["worst_rel"] = max(stats["worst_rel"], j["worst"])
         stats["timeouts"] = stats.get("timeouts", 0) + j.get("timeouts", 0)
         stats["plan_mismatch"] = stats.get("plan_mismatch", 0) + j.get("missing", 0)
+        stats["redefinitions_between_steps"] = stats.get("redefinitions_between_steps", 0) + j.get("redefinitions", 0)
         if "crash" in j:
             stats["engine_crashes"] = stats.get("engine_crashes", 0) + 1
             ctx.notes.append("engine crashed (outside C02, see C08): %s; input: %s" % (j["crash"][:80], json.dumps(h["sims"])[:3000]))
